@@ -1,0 +1,98 @@
+// MIT License
+//
+// Copyright (c) 2022-2026 GoAkt Team
+//
+// Permission is hereby granted, free of charge, to any person obtaining a copy
+// of this software and associated documentation files (the "Software"), to deal
+// in the Software without restriction, including without limitation the rights
+// to use, copy, modify, merge, publish, distribute, sublicense, and/or sell
+// copies of the Software, and to permit persons to whom the Software is
+// furnished to do so, subject to the following conditions:
+//
+// The above copyright notice and this permission notice shall be included in all
+// copies or substantial portions of the Software.
+//
+// THE SOFTWARE IS PROVIDED "AS IS", WITHOUT WARRANTY OF ANY KIND, EXPRESS OR
+// IMPLIED, INCLUDING BUT NOT LIMITED TO THE WARRANTIES OF MERCHANTABILITY,
+// FITNESS FOR A PARTICULAR PURPOSE AND NONINFRINGEMENT. IN NO EVENT SHALL THE
+// AUTHORS OR COPYRIGHT HOLDERS BE LIABLE FOR ANY CLAIM, DAMAGES OR OTHER
+// LIABILITY, WHETHER IN AN ACTION OF CONTRACT, TORT OR OTHERWISE, ARISING FROM,
+// OUT OF OR IN CONNECTION WITH THE SOFTWARE OR THE USE OR OTHER DEALINGS IN THE
+// SOFTWARE.
+
+//go:build verif
+
+package actor
+
+import (
+	"context"
+	"errors"
+
+	"github.com/tochemey/goakt/v4/internal/internalpb"
+)
+
+// Verification harness only: entry points of the remote dead-letter sources,
+// so that they can be driven without a network peer.
+
+func verifWire(x *actorSystem, sender, receiver string, payload any) (*internalpb.RemoteMessage, error) {
+	if x.remoting == nil {
+		return nil, errors.New("remoting is not enabled")
+	}
+	ser := x.remoting.Serializer(payload)
+	if ser == nil {
+		return nil, errors.New("no serializer for payload")
+	}
+	raw, err := ser.Serialize(payload)
+	if err != nil {
+		return nil, err
+	}
+	return &internalpb.RemoteMessage{Sender: sender, Receiver: receiver, Message: raw}, nil
+}
+
+// VerifDeliverRemoteTell hands one wire message (sender and receiver in
+// Address.String() form, a serializable payload) to deliverRemoteTellMessage,
+// as the remote server does for every member of an inbound tell batch.
+func VerifDeliverRemoteTell(sys ActorSystem, sender, receiver string, payload any) error {
+	x, ok := sys.(*actorSystem)
+	if !ok {
+		return errors.New("not an actor system")
+	}
+	m, err := verifWire(x, sender, receiver, payload)
+	if err != nil {
+		return err
+	}
+	x.deliverRemoteTellMessage(context.Background(), m)
+	return nil
+}
+
+// VerifCoalescedFailure reports a failed outbound batch (one wire message per
+// receiver/payload pair) to enqueueCoalescedFailure, as the send coalescer does.
+func VerifCoalescedFailure(sys ActorSystem, dest, sender string, receivers []string, payloads []any, cause error) error {
+	x, ok := sys.(*actorSystem)
+	if !ok {
+		return errors.New("not an actor system")
+	}
+	batch := make([]*internalpb.RemoteMessage, 0, len(payloads))
+	for i := range payloads {
+		m, err := verifWire(x, sender, receivers[i], payloads[i])
+		if err != nil {
+			return err
+		}
+		batch = append(batch, m)
+	}
+	x.enqueueCoalescedFailure(dest, batch, cause)
+	return nil
+}
+
+// VerifCoalescedFailureBacklog returns the number of failed batches waiting
+// for the dead-letter fan-out goroutine.
+func VerifCoalescedFailureBacklog(sys ActorSystem) int {
+	x, ok := sys.(*actorSystem)
+	if !ok || x.coalescedFailureQueue == nil {
+		return 0
+	}
+	return len(x.coalescedFailureQueue)
+}
+
+// VerifAddressOf returns the Address.String() form of pid's address.
+func VerifAddressOf(pid *PID) string { return pid.getAddress().String() }
